@@ -529,6 +529,8 @@ ORTHO = {
     "sendFallbackSCSV": [None, False],
     "useExperimentalTackExtension": [None, True],
     "ec_point_formats": [None, [0]],
+    "useExtendedMasterSecret": [None, False],
+    "useEncryptThenMAC": [None, False],
 }
 
 
@@ -582,6 +584,22 @@ def check_ortho(case):
             % (case["field"], val, case["who"],
                "client auth" if case.get("auth") else "no client auth",
                p.co, p.so), labels=labels)
+    if case.get("tickets"):
+        # the same two settings objects once more, the client offering what
+        # the first connection left it with: resumed or not, it connects
+        sc.do_close(p, "c")
+        sc.do_close(p, "s")
+        client["session"] = p.c.session
+        q = sc.connect(client, server)
+        labels.append("second:" + ("resumed" if q.both_ok and q.c.resumed
+                                   else "full" if q.both_ok else "failed"))
+        if not q.both_ok:
+            return bad("compatible-settings-fail:second-connection:%s:%s" % (
+                sc.VERNAME[v], case["field"]),
+                "%s=%r on %s: first connection fine, second (session "
+                "offered, same settings): client %r server %r" % (
+                    case["field"], val, case["who"], q.co, q.so),
+                labels=labels)
     return good(labels=labels)
 
 
